@@ -386,8 +386,8 @@ func c03HeaderJudge(ha, hb bc.Hash, m lg.Mutation) error {
 
 func TestC03(t *testing.T) {
 	rule := "a ledgergen description (tx: 0..12 inputs of 4 kinds, 0..12 outputs of 3 kinds, boundary-heavy integers, pooled assets; header: 0..4 supLinks; block: 0..6 txs) plus ONE named single-field mutation that really changes the value; both sides built through the repository constructors; consensus mutation => id/hash differs, witness-only mutation (arguments, block witness, supLinks) => equal; block: changed tx id => TxMerkleRoot and block hash change; every applied mutation is non-trivial; distinct by (target, mutation name, site kind, shape)"
-	pbt.Run(t, "C03", rule, pbt.Options{Sub: "tx", Checks: pbt.Per(6000, 600000),
+	pbt.Run(t, "C03", rule, pbt.Options{Sub: "tx", Checks: pbt.Per(12000, 1800000),
 		MinClass: map[string]int{"kind:witness": 20, "site:original+retire": 5}}, c03GenTx, c03Exec)
-	pbt.Run(t, "C03", rule, pbt.Options{Sub: "header", Checks: pbt.Per(2000, 150000)}, c03GenHeader, c03Exec)
-	pbt.Run(t, "C03", rule, pbt.Options{Sub: "block", Checks: pbt.Per(1500, 100000)}, c03GenBlock, c03Exec)
+	pbt.Run(t, "C03", rule, pbt.Options{Sub: "header", Checks: pbt.Per(3000, 400000)}, c03GenHeader, c03Exec)
+	pbt.Run(t, "C03", rule, pbt.Options{Sub: "block", Checks: pbt.Per(3000, 240000)}, c03GenBlock, c03Exec)
 }
